@@ -98,7 +98,20 @@ props C17
 dialect neovm
 
 // C17: vote collection (notary-disabled mode of the main-chain contract).
-pure ballots(s Store) L_Ballot = deser_L_Ballot(s.get("ballots"))
+pure ballots(s Store) L_Ballot = s.has("ballots") ? deser_L_Ballot(s.get("ballots")) : empty_L_Ballot()
+pure live(b Ballot) Bool = height - b.Height <= 20
+pure hasVoter(b Ballot, k Bytes) Bool = exists j Int :: 0 <= j && j < len(b.Voters) && b.Voters[j] == k
+
+// The vote is a function of the old ballot list o (fixed during the call), defined by recursion on the number k of
+// old ballots processed: cl = number of live ones among the first k (= length of the new list so far),
+// fnd = value of the vote counter (-1: no live ballot for id seen yet).
+ufun cl(o L_Ballot, k Int) Int
+ufun fnd(o L_Ballot, k Int, id Bytes) Int
+axiom cl0:  forall o L_Ballot {cl(o, 0)} :: cl(o, 0) == 0
+axiom clS:  forall o L_Ballot, k Int {cl(o, k + 1)} :: k >= 0 ==> cl(o, k + 1) == cl(o, k) + (live(o[k]) ? 1 : 0)
+axiom fnd0: forall o L_Ballot, id Bytes {fnd(o, 0, id)} :: fnd(o, 0, id) == 0 - 1
+axiom fndS: forall o L_Ballot, k Int, id Bytes {fnd(o, k + 1, id)} :: k >= 0 ==>
+              fnd(o, k + 1, id) == (live(o[k]) && o[k].ID == id ? len(o[k].Voters) + 1 : fnd(o, k, id))
 
 // returns the first key of the list that carries a witness, or nil: only witnessed Alphabet keys ever vote
 func InnerRingInvoker(ir) (r)
@@ -108,21 +121,47 @@ func InnerRingInvoker(ir) (r)
   loop 0
     invariant true
 
+func getBallots(ctx) (r)
+  pure
+  ensures r == ballots(store) && !isnil(r)
+
+func bytesEqual(a, b) (r)
+  pure
+  ensures r == (a == b)
+
 func Vote(ctx, id, from) (n)
+  logged
   requires [C17] W(from)
   ensures [C17] n >= 1
-  // stale ballots expire: whatever is stored afterwards is at most 20 blocks old
-  ensures [C17] store == old(store) || (store.has("ballots")
-        && (forall i Int {ballots(store)[i]} :: 0 <= i && i < len(ballots(store)) ==> height - ballots(store)[i].Height <= 20))
-  // only the ballot list is written
+  // only the ballot list is written, nothing is notified
   ensures [C17] forall k Bytes {store.opt(k)} :: k != "ballots" ==> store.opt(k) == old(store).opt(k)
   ensures notifs == old(notifs)
+  // a repeated vote of one key counts once: the list is stored only if `from` is in no live ballot for id
+  ensures [C17] store != old(store) ==> forall q Int {ballots(old(store))[q]} :: 0 <= q && q < len(ballots(old(store))) && live(ballots(old(store))[q]) && ballots(old(store))[q].ID == id
+        ==> (forall j Int {ballots(old(store))[q].Voters[j]} :: 0 <= j && j < len(ballots(old(store))[q].Voters) ==> ballots(old(store))[q].Voters[j] != from)
+  // the new list, element by element: stale ballots are gone, live ballots for other ids are kept unchanged in order
+  // (votes for different ids never mix), the live ballot for id gets `from` appended and the current height, and a
+  // fresh one-voter ballot is appended if there was none
+  ensures [C17] store != old(store) ==> store.has("ballots") && len(ballots(store)) == cl(ballots(old(store)), len(ballots(old(store)))) + (fnd(ballots(old(store)), len(ballots(old(store))), id) < 0 ? 1 : 0)
+  ensures [C17] store != old(store) ==> forall q Int {ballots(old(store))[q]} :: 0 <= q && q < len(ballots(old(store))) && live(ballots(old(store))[q]) ==>
+        ballots(store)[cl(ballots(old(store)), q)] == (ballots(old(store))[q].ID == id ? Ballot{id, push(ballots(old(store))[q].Voters, from), height} : ballots(old(store))[q])
+  ensures [C17] store != old(store) && fnd(ballots(old(store)), len(ballots(old(store))), id) < 0 ==>
+        ballots(store)[cl(ballots(old(store)), len(ballots(old(store))))] == Ballot{id, list1(from), height}
+  // the number returned is the number of distinct keys that have voted for id within the window, this vote included
+  ensures [C17] store != old(store) ==> n == (fnd(ballots(old(store)), len(ballots(old(store))), id) < 0 ? 1 : fnd(ballots(old(store)), len(ballots(old(store))), id))
   loop 0
-    invariant found == 0 - 1 || found >= 1
-    invariant store == old(store)
-    invariant forall i Int {newCandidates[i]} :: 0 <= i && i < len(newCandidates) ==> blockHeight - newCandidates[i].Height <= 20
+    invariant store == old(store) && candidates == ballots(old(store)) && $i <= len(candidates)
+    invariant found == fnd(candidates, $i, id)
+    invariant len(newCandidates) == cl(candidates, $i)
+    invariant forall q Int {candidates[q]} :: 0 <= q && q < $i && live(candidates[q]) ==>
+        newCandidates[cl(candidates, q)] == (candidates[q].ID == id ? Ballot{id, push(candidates[q].Voters, from), blockHeight} : candidates[q])
+    invariant forall q Int {candidates[q]} :: 0 <= q && q < $i && live(candidates[q]) && candidates[q].ID == id
+        ==> (forall j Int {candidates[q].Voters[j]} :: 0 <= j && j < len(candidates[q].Voters) ==> candidates[q].Voters[j] != from)
+    invariant 0 <= cl(candidates, $i)
+    invariant forall q Int {candidates[q]} :: 0 <= q && q < $i && live(candidates[q]) ==> 0 <= cl(candidates, q) && cl(candidates, q) < cl(candidates, $i)
   loop 1
-    invariant store == old(store)
+    invariant store == old(store) && voters == cnd.Voters
+    invariant forall t Int {voters[t]} :: 0 <= t && t < j ==> voters[t] != from
 
 func RemoveVotes(ctx, id)
   ensures [C17] store.has("ballots")
